@@ -1,4 +1,5 @@
 import re
+from copy import deepcopy
 from ..css_abbreviation import parse as abbreviation, tokens, CSSValue, CSSProperty, FunctionCall
 from ..config import Config
 from ..list_utils import some, get_item
@@ -136,7 +137,9 @@ def resolve_as_property(node: CSSProperty, snippet: CSSSnippetProperty, config: 
         # We should auto-select inserted value only if there’s multiple value
         # choice
         if len(snippet.value) == 1 or some(has_field, default_value):
-            node.value = default_value
+            # Snippets may be shared between calls via `cache`: never hand out
+            # their own tokens, they are modified later (e.g. units are resolved)
+            node.value = deepcopy(default_value)
         else:
             node.value = list(map(lambda n: wrap_with_field(n, config), default_value))
 
